@@ -31,7 +31,7 @@ PROPERTY_PARTS = {
     "C14": ["vt.main"],
     "C19": ["nfs.main"],
     "C13": ["atomic.main"],
-    "C18": ["atomic.main"],
+    "C18": ["atomic.main", "nfs.main"],
     "C11": ["tlv.main"],
     "C12": ["tlv.main"],
     "C03": ["pipe.design", "pipe.random"],
